@@ -440,6 +440,12 @@ class FakeSocket:
             k.log("recv", self.cid, 0)
             k.progress += 1
             return b""
+        if not self.nonblocking:
+            k.probe("blocking_recv")
+            k.block_until(lambda: bool(self.inq) or self.in_fin or self.rst or self.closed, None, "sock.recv:blocking")
+            if self.closed and not (self.inq or self.in_fin or self.rst):
+                raise OSError(errno.EBADF, "Bad file descriptor")
+            return self.recv(n)
         raise BlockingIOError(EWOULDBLOCK, "Resource temporarily unavailable")
 
     def send(self, data):
@@ -449,9 +455,18 @@ class FakeSocket:
             k.log("sock", self.cid, "send", "EPIPE")
             raise BrokenPipeError(errno.EPIPE, "Broken pipe")
         free = self.sndbuf_cap - self.unread
+        if free <= 0 and not self.nonblocking:
+            # a socket left in blocking mode (accepted sockets start out blocking): the caller sleeps in send()
+            # until the peer makes room or goes away
+            k.probe("blocking_send")
+            k.block_until(lambda: self.rst or self.closed or (self.sndbuf_cap - self.unread) > 0, None, "sock.send:blocking")
+            if self.rst or self.closed:
+                k.log("sock", self.cid, "send", "EPIPE")
+                raise BrokenPipeError(errno.EPIPE, "Broken pipe")
+            free = self.sndbuf_cap - self.unread
         if free <= 0:
             raise BlockingIOError(EWOULDBLOCK, "Resource temporarily unavailable")
-        if self.net.p_zero_send and k.tapes.F.chance(self.net.p_zero_send):
+        if self.nonblocking and self.net.p_zero_send and k.tapes.F.chance(self.net.p_zero_send):
             k.probe("zero_send")
             raise BlockingIOError(EWOULDBLOCK, "Resource temporarily unavailable")
         n = min(len(data), free)
